@@ -34,6 +34,7 @@ package asr
 //@     complete [all_iterations_no_early_exit]
 //@   loop 8
 //@     complete [all_iterations_no_early_exit]
+//@     invariant [the_kept_state_is_a_largest_count_of_this_site_starting_afresh_at_every_site] max >= 0.0 && 0 <= maxState && (max == 0.0 ? maxState == 0 || true : true) && (forall q int :: {seqs[cur.id].seq[j].counts[q]} 0 <= q && q <= rangeindex ==> seqs[cur.id].seq[j].counts[q] <= max) && (max == 0.0 || (0 <= maxState && maxState <= rangeindex && seqs[cur.id].seq[j].counts[maxState] == max))
 
 //@ func asr.computeParsimony
 //@   requires len(currentStates.counts) >= len(neighborStates.counts)
